@@ -102,6 +102,52 @@ func extractOpenAPIMain() (string, error) {
 			return true
 		})
 	}
+	// parseParameters: how the parameter string is cut and what is stored in the map
+	pp := findFunc(f, "parseParameters")
+	if pp == nil {
+		return "", fmt.Errorf("parseParameters not found")
+	}
+	pairSplit, kvSplit, storeKey, storeValue := "", "", "", ""
+	kvLimit := -1
+	limits := map[string]int{}
+	ast.Inspect(pp.Body, func(n ast.Node) bool {
+		switch x := n.(type) {
+		case *ast.ValueSpec: // const splitLimit = 2
+			for i, nm := range x.Names {
+				if i < len(x.Values) {
+					if bl, ok := x.Values[i].(*ast.BasicLit); ok {
+						if v, err := strconv.Atoi(bl.Value); err == nil {
+							limits[nm.Name] = v
+						}
+					}
+				}
+			}
+		case *ast.CallExpr:
+			switch exprString(x.Fun) {
+			case "strings.Split":
+				pairSplit = srcOf(x)
+			case "strings.SplitN":
+				kvSplit = srcOf(x)
+				if len(x.Args) == 3 {
+					if bl, ok := x.Args[2].(*ast.BasicLit); ok {
+						kvLimit, _ = strconv.Atoi(bl.Value)
+					} else if v, ok := limits[exprString(x.Args[2])]; ok {
+						kvLimit = v
+					}
+				}
+			}
+		case *ast.AssignStmt:
+			if len(x.Lhs) == 1 && len(x.Rhs) == 1 {
+				if ix, ok := x.Lhs[0].(*ast.IndexExpr); ok && exprString(ix.X) == "params" {
+					storeKey, storeValue = srcOf(ix.Index), srcOf(x.Rhs[0])
+				}
+			}
+		}
+		return true
+	})
+	if pairSplit == "" || kvSplit == "" || storeKey == "" || kvLimit < 0 {
+		return "", fmt.Errorf("parseParameters: expected strings.Split / strings.SplitN / params[k] = v, found split=%q cut=%q limit=%d store=%q", pairSplit, kvSplit, kvLimit, storeKey)
+	}
 	var b strings.Builder
 	b.WriteString(header("OpenApiMain", "cmd/protoc-gen-openapiv3/main.go"))
 	fmt.Fprintf(&b, "def paramKey : String := %s\n", leanStr(paramKey))
@@ -114,6 +160,9 @@ func extractOpenAPIMain() (string, error) {
 	fmt.Fprintf(&b, "def defaultExt : String := %s\ndef jsonExt : String := %s\n", leanStr(defExt), leanStr(jsonExt))
 	fmt.Fprintf(&b, "def fileNamePattern : String := %s\ndef fileNameArg : String := %s\n", leanStr(pattern), leanStr(nameArg))
 	fmt.Fprintf(&b, "def onePerService : Bool := %v\ndef skipsNonGenerate : Bool := %v\n", perService, skipsNonGenerate)
+	b.WriteString("/-- `parseParameters`: how the parameter string is cut and what is stored. -/\n")
+	fmt.Fprintf(&b, "def pairSplit : String := %s\ndef kvSplit : String := %s\ndef kvLimit : Nat := %d\n", leanStr(pairSplit), leanStr(kvSplit), kvLimit)
+	fmt.Fprintf(&b, "def storeKey : String := %s\ndef storeValue : String := %s\n", leanStr(storeKey), leanStr(storeValue))
 	b.WriteString("end Sebuf.Gen.OpenApiMain\n")
 	return b.String(), nil
 }
